@@ -172,13 +172,15 @@ package lfs
 // C04 / C01 (smudge side, partial): a local object is only streamed into the
 // working tree when it exists and has exactly the size the pointer records.
 //@ func (*GitFilter).Smudge
-//@   props C04
+//@   props C04 C01
 //@   requires @inv ptr != nil
 //@   at call (*lfs.GitFilter).readLocalFile:1 assert fexists(arg3__) && len(fdata(arg3__)) == ptr.Size
+//@   at call (*lfs.GitFilter).readLocalFile:1 assert arg1__ == writer && arg2__ == ptr && (arg3__ == objpath(ptr.Oid) || arg3__ == devnull)
 //@ func (*GitFilter).readLocalFile
-//@   assumed
-//@   props C04
-//@   modifies all
+//@   props C01 C04
+//@   requires @inv f != nil && ptr != nil && writer != nil
+//@   ensures result1 == nil && old(len(ptr.Extensions)) == 0 && !dyntype(writer, "*os.File") && !is_tee(writer) ==> wbuf(writer) == scat(old(wbuf(writer)), old(fdata(mediafile))) && result0 == len(old(fdata(mediafile)))
+//@   ensures result1 == nil && old(len(ptr.Extensions)) == 0 && dyntype(writer, "*os.File") && old(rrest(writer)) == "" && fpath(ptr_as(writer, "os.File")) != mediafile ==> fdata(fpath(ptr_as(writer, "os.File"))) == scat(old(fdata(fpath(ptr_as(writer, "os.File")))), old(fdata(mediafile)))
 //@ func (*GitFilter).downloadFile
 //@   assumed
 //@   props C04
@@ -216,7 +218,7 @@ package lfs
 //@   props C04 C09
 //@   requires @inv cfg != nil && isoid(oid) && oid != fs.EmptyObjectSHA256
 //@   requires @inv forall_v(q, isrefobj(q, oid), isrefobj(q, oid) && fexists(q) ==> hexsha(fdata(q)) == oid)
-//@   modifies fresh, heap, ghost fpath, ghost rrest, ghost wbuf, ghost fexists[q | q == objpath(oid) || (isauxdir(path_dir(q)) && !old(fexists(q)))], ghost fdata[q | q == objpath(oid) || (isauxdir(path_dir(q)) && !old(fexists(q)))]
+//@   modifies fresh, key F:github.com/git-lfs/git-lfs/v3/fs.Filesystem.tmpdir, ghost fpath, ghost rrest, ghost wbuf, ghost fexists[q | q == objpath(oid) || (isauxdir(path_dir(q)) && !old(fexists(q)))], ghost fdata[q | q == objpath(oid) || (isauxdir(path_dir(q)) && !old(fexists(q)))]
 //@   loop 1 invariant forall_v(q, isrefobj(q, oid), isrefobj(q, oid) && fexists(q) ==> hexsha(fdata(q)) == oid)
 //@   loop 1 invariant forall_v(q, fexists(q), old(fexists(q)) ==> fexists(q))
 //@   loop 1 invariant fexists(objpath(oid)) ==> hexsha(fdata(objpath(oid))) == oid || (old(fexists(objpath(oid))) && fdata(objpath(oid)) == old(fdata(objpath(oid))))
@@ -331,3 +333,13 @@ package lfs
 //@   props C05
 //@   modifies fresh
 //@   ensures result1 == nil ==> result0 != nil
+
+// Configuration look-ups used by the smudge side (assumed frames).
+//@ func (*github.com/git-lfs/git-lfs/v3/config.Configuration).Extensions
+//@   assumed
+//@   props C01 C04 C14
+//@   modifies fresh
+//@ func github.com/git-lfs/git-lfs/v3/config.SortExtensions
+//@   assumed
+//@   props C01 C04 C14
+//@   modifies fresh
